@@ -107,11 +107,20 @@ def mutants(root):
 
 
 def sh(cmd, cwd=None, env=None, timeout=1800):
+    """run in its own process group and kill the whole group on a timeout (a mutant can make the proc macro - and with it
+    rustc - loop forever; an orphaned compiler would keep the target-directory lock)"""
+    import signal
+    p = subprocess.Popen(cmd, cwd=cwd, env=env, stdout=subprocess.PIPE, stderr=subprocess.STDOUT, text=True, shell=True,
+                         start_new_session=True)
     try:
-        p = subprocess.run(cmd, cwd=cwd, env=env, stdout=subprocess.PIPE, stderr=subprocess.STDOUT, text=True, shell=True,
-                           timeout=timeout)
-        return p.returncode, p.stdout
+        out, _ = p.communicate(timeout=timeout)
+        return p.returncode, out
     except subprocess.TimeoutExpired:
+        try:
+            os.killpg(p.pid, signal.SIGKILL)
+        except ProcessLookupError:
+            pass
+        p.wait()
         return 124, "timeout"
 
 
